@@ -1,6 +1,7 @@
 import Poulpy.Lemmas.BlindExec
 import Poulpy.Lemmas.CmuxMachine
 import Poulpy.Lemmas.RingNu
+import Poulpy.Lemmas.BlkMachine
 
 /-!
 The executed block of `execute_block_binary` (`Core.Blind.bbBlock`) satisfies the block contract of the blind-rotation machine:
@@ -489,11 +490,95 @@ theorem bbBlock_spec (p : Par) (L : Nat) (hok : BrOk p L) (out : List Col) (hout
   rw [hpS] at he
   have hpA : (2 : Ks.R p.N) ^ (p.b * p.rs + p.b * p.S) = (2 : Ks.R p.N) ^ (p.b * p.rs) * (2 : Ks.R p.N) ^ (p.b * p.S) := pow_add _ _ _
   rw [hpA] at he
-  have hcomm : (blk.map (fun x => bitR x.2.bit * (rt p.N ^ Lut.posMod x.1 (2 * p.N) - 1))).sum
-      = (blk.map (fun x => bitR x.2.bit * (rt p.N ^ Lut.posMod x.1 (2 * p.N) - 1))).sum := rfl
-  linear_combination he + (2 : Ks.R p.N) ^ (p.b * p.rs) * (blk.map (fun x => bitR x.2.bit * (rt p.N ^ Lut.posMod x.1 (2 * p.N) - 1))).sum
-    * Ks.ι p.N (C02L.valP p.b p.N (Core.Ops.phase p.sk (Ks.mkCt p.b p.N out))) * 0
+  linear_combination he
     + (1 + (blk.map (fun x => bitR x.2.bit * (rt p.N ^ Lut.posMod x.1 (2 * p.N) - 1))).sum)
       * Ks.ι p.N (C02L.valP p.b p.N (Core.Ops.phase p.sk (Ks.mkCt p.b p.N out))) * hpw
+
+/-! ### the block machine on the executed loop -/
+
+theorem posMod_eq_xexp (N : Nat) (hN2 : 2 * N < 2 ^ 62) (a : Int) (ha : |a| < 2 ^ 62) : Lut.posMod a (2 * N) = RingNu.xexp N a := by
+  unfold Lut.posMod RingNu.xexp
+  have hb := abs_lt.mp ha
+  have hm : ((2 * N : ℕ) : Int) < 2 ^ 62 := by exact_mod_cast hN2
+  have hm0 : (0 : Int) ≤ ((2 * N : ℕ) : Int) := Int.natCast_nonneg _
+  rw [C02L.w64_small _ (by linarith) (by linarith), Int.add_emod_right]
+
+/-- one block as a total function (`bbBlock` returns on every input of the theorems) -/
+def stepC (p : Par) (c : List Col) (blk : List (Int × GBit p.N)) : List Col :=
+  match bbBlock p.big128 p.N p.b p.rs p.S (p.rank + 1) p.dnum c (blkKeys blk) with
+  | some r => r
+  | none => c
+
+theorem stepC_spec (p : Par) (L : Nat) (hok : BrOk p L) (hN2 : 2 * p.N < 2 ^ 62) (c : List Col) (blk : List (Int × GBit p.N))
+    (hc : WfC p c) (hL : blk.length ≤ L) (hgood : ∀ x ∈ blk, Good p x.2 ∧ |x.1| < 2 ^ 62) :
+    bbBlock p.big128 p.N p.b p.rs p.S (p.rank + 1) p.dnum c (blkKeys blk) = some (stepC p c blk) ∧ WfC p (stepC p c blk) ∧
+    (RingNu.size p.modulus p.N hok.1).ν (phR p (stepC p c blk)
+        - (1 + (blk.map fun x => (bitR x.2.bit : Ks.R p.N) * ((RingNu.mono p.modulus p.N hok.1).X x.1 - 1)).sum) * phR p c)
+      ≤ 2 * (blk.length * brB p) + brU p := by
+  have hN := hok.1
+  obtain ⟨res, hres, hwf, E, Y, hE, hnE, hid⟩ := bbBlock_spec p L hok c hc blk hL (fun x hx => (hgood x hx).1)
+  have hst : stepC p c blk = res := by unfold stepC; rw [hres]
+  rw [hst]
+  refine ⟨hres, hwf, ?_⟩
+  have hX : ∀ x ∈ blk, rt p.N ^ Lut.posMod x.1 (2 * p.N) = (RingNu.mono p.modulus p.N hN).X x.1 := by
+    intro x hx
+    rw [posMod_eq_xexp p.N hN2 x.1 (hgood x hx).2]; rfl
+  have e1 : (blk.map (fun x => bitR x.2.bit * (rt p.N ^ Lut.posMod x.1 (2 * p.N) - 1)))
+      = blk.map (fun x => (bitR x.2.bit : Ks.R p.N) * ((RingNu.mono p.modulus p.N hN).X x.1 - 1)) := by
+    apply List.map_congr_left; intro x hx; rw [hX x hx]
+  have e2 : (blk.map (fun x => (rt p.N ^ Lut.posMod x.1 (2 * p.N) - 1) * Ks.ι p.N (Hal.polyScale (2 ^ (p.b * p.rs)) (bitErrL p c x.2))))
+      = blk.map (fun x => ((RingNu.mono p.modulus p.N hN).X x.1 - 1) * Ks.ι p.N (Hal.polyScale (2 ^ (p.b * p.rs)) (bitErrL p c x.2))) := by
+    apply List.map_congr_left; intro x hx; rw [hX x hx]
+  rw [e1, e2] at hid
+  have hdiff : phR p res - (1 + (blk.map fun x => (bitR x.2.bit : Ks.R p.N) * ((RingNu.mono p.modulus p.N hN).X x.1 - 1)).sum) * phR p c
+      = (blk.map (fun x => ((RingNu.mono p.modulus p.N hN).X x.1 - 1) * Ks.ι p.N (Hal.polyScale (2 ^ (p.b * p.rs)) (bitErrL p c x.2)))).sum
+        + (Ks.ι p.N E + ((p.modulus : ℤ) : Ks.R p.N) * Y) := by rw [hid]; ring
+  rw [hdiff]
+  have hS := (RingNu.size p.modulus p.N hN).add_le
+    ((blk.map (fun x => ((RingNu.mono p.modulus p.N hN).X x.1 - 1) * Ks.ι p.N (Hal.polyScale (2 ^ (p.b * p.rs)) (bitErrL p c x.2)))).sum)
+    (Ks.ι p.N E + ((p.modulus : ℤ) : Ks.R p.N) * Y)
+  have hU : (RingNu.size p.modulus p.N hN).ν (Ks.ι p.N E + ((p.modulus : ℤ) : Ks.R p.N) * Y) ≤ brU p :=
+    le_trans (RingNu.nu_le_of_repr hN _ Y E hE rfl) hnE
+  have hA := (RingNu.size p.modulus p.N hN).sum_le
+    (blk.map (fun x => ((RingNu.mono p.modulus p.N hN).X x.1 - 1) * Ks.ι p.N (Hal.polyScale (2 ^ (p.b * p.rs)) (bitErrL p c x.2))))
+    (2 * brB p) (by
+      intro y hy
+      obtain ⟨x, hx, rfl⟩ := List.mem_map.mp hy
+      have hb := bitErr_bound p L hok c hc x.2 (hgood x hx).1
+      have h1 := (RingNu.mono p.modulus p.N hN).xm1_le x.1 (Ks.ι p.N (Hal.polyScale (2 ^ (p.b * p.rs)) (bitErrL p c x.2)))
+      have h2 : (RingNu.size p.modulus p.N hN).ν (Ks.ι p.N (Hal.polyScale (2 ^ (p.b * p.rs)) (bitErrL p c x.2))) ≤ brB p :=
+        le_trans (RingNu.nu_le_of_repr hN _ 0 _ hb.1 (by simp)) hb.2
+      linarith)
+  rw [List.length_map] at hA
+  linarith
+
+/-- **the block machine of `NoiseAlg` on the executed `execute_block_binary`**: no contract left -/
+noncomputable def machine (p : Par) (L : Nat) (hok : BrOk p L) (hN2 : 2 * p.N < 2 ^ 62) :
+    BlkMachine (Ks.R p.N) (RingNu.size p.modulus p.N hok.1) (RingNu.mono p.modulus p.N hok.1) (List Col) (GBit p.N) where
+  ph := phR p
+  step := stepC p
+  inv := WfC p
+  good := fun x => Good p x.2 ∧ |x.1| < 2 ^ 62
+  bit := fun x => x.bit
+  maxLen := L
+  B := brB p
+  U := brU p
+  step_spec := fun c blk hc hL hg => (stepC_spec p L hok hN2 c blk hc hL hg).2
+
+/-- the executed loop is the machine's run -/
+theorem bbLoop_eq_exec (p : Par) (L : Nat) (hok : BrOk p L) (hN2 : 2 * p.N < 2 ^ 62) (blocks : List (List (Int × GBit p.N))) :
+    ∀ (acc : List Col), WfC p acc → (∀ blk ∈ blocks, blk.length ≤ L) → (∀ blk ∈ blocks, ∀ x ∈ blk, Good p x.2 ∧ |x.1| < 2 ^ 62) →
+      bbLoop p.big128 p.N p.b p.rs p.S (p.rank + 1) p.dnum acc (blocks.map blkKeys) = some ((machine p L hok hN2).exec acc blocks) := by
+  induction blocks with
+  | nil => intro acc _ _ _; rfl
+  | cons blk rest ih =>
+    intro acc hacc hlen hgood
+    obtain ⟨h1, h2, _⟩ := stepC_spec p L hok hN2 acc blk hacc (hlen blk (by simp)) (hgood blk (by simp))
+    have e : bbLoop p.big128 p.N p.b p.rs p.S (p.rank + 1) p.dnum acc ((blk :: rest).map blkKeys)
+        = bbLoop p.big128 p.N p.b p.rs p.S (p.rank + 1) p.dnum (stepC p acc blk) (rest.map blkKeys) := by
+      unfold bbLoop
+      simp only [List.map_cons, List.foldl_cons, Option.bind_some, h1]
+    rw [e, ih _ h2 (fun b hb => hlen b (by simp [hb])) (fun b hb => hgood b (by simp [hb]))]
+    rfl
 
 end BlindMachine
